@@ -87,6 +87,21 @@ FindFrom(m, q0, q, kind) ==
          IN IF res = <<>> THEN <<[ok |-> 0, d |-> Short(m, at[1])]>>
             ELSE <<[ok |-> 1, d |-> Short(m, res[1])]>>
 
+\* C20 fixes the outcome of a retain whose predicate panicked relative to the calls that preceded the panic,
+\* not the order of the calls (the machine below asks children first, as the code does today).  For an observed
+\* call sequence `calls` (the last call is the one that panicked) the outcome is: the entries asked before the
+\* panic and rejected are gone, everything else is untouched.
+StoredPfxs(m) == {m.a[i].p : i \in {j \in Reach(m) : m.a[j].v # NoVal}}
+RetainObservedOK(m, e, calls) ==
+    /\ e.panicAt > 0 /\ Len(calls) = e.panicAt
+    /\ \A i \in 1..Len(calls) : calls[i] \in StoredPfxs(m)
+    /\ \A i, j \in 1..Len(calls) : i # j => calls[i].n # calls[j].n
+RetainObserved(m, e, calls) ==
+    LET before == {calls[i].n : i \in 1..(Len(calls) - 1)}
+        keep2  == e.keep \cup ({p.n : p \in StoredPfxs(m)} \ before)
+        rr     == MapRetain(m, keep2, 0)
+    IN [m |-> rr.m, ret |-> calls, pan |-> TRUE]
+
 Apply(m, e) ==
     CASE e.a = "Insert"         -> LET r == MapInsert(m, e.p, e.v) IN Res(r.m, r.ret)
       [] e.a = "Remove"         -> LET r == MapRemove(m, e.p) IN Res(r.m, r.ret)
